@@ -384,6 +384,14 @@ class C20Check(Check):
             "cpu": int(cpu),
             "mode": mode,
             "perm": f.sample(range(80), 80),
+            # arguments the wrapper only forwards: per-sample weights of the training data
+            # (not for the strategies that need a mapping from candidates to X once weights are given: they refuse
+            # the feature-row chunks the wrapper hands them)
+            "sample_weight": [round(g.uniform(0.2, 3.0), 2) for _ in range(n)]
+            if ("sample_weight" in R.query_params(key) and e["cls"] not in ("KLDivergenceMaximization", "ExpectedModelOutputChange", "ExpectedModelVarianceReduction") and g.chance(0.35))
+            else None,
+            # a pool of integer dtype (e.g. counts) is a legal X
+            "int_X": g.chance(0.15),
             # pre-emption plan: [task rank, fraction of that task's own run length], at most 6 per run
             "switches": sorted([f.randrange(0, 4), round(f.random() ** f.pick([1, 2]), 4)] for _ in range(f.pick([0, 1, 2, 3, 4, 6]))) if mode == "threads" else [],
         }
@@ -409,15 +417,19 @@ class C20Check(Check):
         subj = "ParallelUtilityEstimationWrapper"
         inner_cls = R.ENTRIES[sc["entry"]]["cls"]
         X = np.array(sc["X"], dtype=float)
+        if sc.get("int_X"):
+            X = np.round(X * 3).astype(np.int64)
         y = to_y(sc["y0"])
         unl = np.where(np.isnan(y))[0]
         cand = None if sc["cand"] == "none" else unl[:: 2 if len(unl) > 3 else 1].copy()
+        sw_kw = {} if sc.get("sample_weight") is None else {"sample_weight": np.array(sc["sample_weight"], dtype=float)}
         n_cand = len(unl) if cand is None else len(cand)
         cond = {"inner": inner_cls, "mode": sc["mode"], "n_jobs_negative": sc["n_jobs"] < 0, "fewer_candidates_than_cpus": n_cand < sc["cpu"]}
         np.random.seed(sc.get("run_seed", 0) % (2**32))
         # ---- reference: the inner strategy queried once, sequentially, on the same candidates
         try:
             inner, _, kw = self._objects(sc)
+            kw.update(sw_kw)
             ref_idx, ref_u = inner.query(X, y, candidates=None if cand is None else cand.copy(), batch_size=1, return_utilities=True, **kw)
             ref_u = np.asarray(ref_u, dtype=float)[0]
         except Exception as e:
@@ -442,7 +454,7 @@ class C20Check(Check):
                 _, wrapper0, kw0 = self._objects(sc)
                 SIM.mode = "order"
                 try:
-                    wrapper0.query(X, y, candidates=None if cand is None else cand.copy(), batch_size=1, return_utilities=True, **kw0)
+                    wrapper0.query(X, y, candidates=None if cand is None else cand.copy(), batch_size=1, return_utilities=True, **kw0, **sw_kw)
                 except Exception:
                     pass
                 per_task = max(SIM.steps, 1) / max(SIM.tasks, 1)
@@ -455,6 +467,7 @@ class C20Check(Check):
             _, wrapper, kw = self._objects(sc)
             err = None
             try:
+                kw.update(sw_kw)
                 w_idx, w_u = wrapper.query(X, y, candidates=None if cand is None else cand.copy(), batch_size=1, return_utilities=True, **kw)
                 w_u = np.asarray(w_u, dtype=float)[0]
             except Exception as e:
@@ -483,6 +496,11 @@ class C20Check(Check):
             ctx.probe("preempted_in_flight", len(SIM.trace))
         ctx.log.add("trace", SIM.trace)
         sig = "|".join([sc["entry"], sc["mode"], "neg" if sc["n_jobs"] < 0 else ("gt" if sc["n_jobs"] > n_cand else "le"), str(sc["cpu"]), str(len(SIM.trace)), ",".join(sorted(ctx.probes))])
+        if err is not None and self._sequential_chunks_agree(sc, X, y, cand, unl, ref_u) == "raises":
+            # the wrapped strategy itself refuses these chunks (e.g. sample_weight without a mapping to X for
+            # feature-row candidates): not a compatible inner strategy for this call, nothing to judge
+            ctx.notes.append(f"inner strategy refuses chunked evaluation: {type(err).__name__}: {str(err)[:100]}")
+            return ctx.result(sig=sig, extra={"aborted": True, "notes": ctx.notes})
         if err is not None:
             ctx.violate(
                 "wrapper-raises",
@@ -495,7 +513,7 @@ class C20Check(Check):
         ctx.probe("utilities_compared")
         if w_u.shape != ref_u.shape or not close(w_u, ref_u, rtol=1e-12, atol=1e-15):
             # is the inner strategy really chunk-compatible on this input?  evaluate the same chunks sequentially
-            if self._sequential_chunks_agree(sc, X, y, cand, unl, ref_u):
+            if self._sequential_chunks_agree(sc, X, y, cand, unl, ref_u) is True:
                 bad = int(np.nanargmax(np.abs(np.nan_to_num(w_u) - np.nan_to_num(ref_u)))) if w_u.shape == ref_u.shape else -1
                 ctx.violate(
                     "utilities-differ-from-inner",
@@ -543,6 +561,8 @@ class C20Check(Check):
         """Harness-side evaluation of the chunks, one after the other, on a fresh inner strategy."""
         try:
             inner, _, kw = self._objects(sc)
+            if sc.get("sample_weight") is not None:
+                kw["sample_weight"] = np.array(sc["sample_weight"], dtype=float)
             idx = unl if cand is None else cand
             n_cand = len(idx)
             nj = sc["n_jobs"]
@@ -558,7 +578,7 @@ class C20Check(Check):
             u[idx] = np.concatenate(parts)
             return close(u, ref_u, rtol=1e-12, atol=1e-15)
         except Exception:
-            return False
+            return "raises"
 
     def nontrivial(self, res):
         p = res["probes"]
